@@ -112,6 +112,7 @@ type Worker struct {
 	capsHit  []string
 	progress *os.File
 	pbuf     [16]byte
+	lastBeat int64
 	replayIx int64 // if >=0 only this global index is run (crash replay)
 }
 
@@ -142,10 +143,31 @@ func (w *Worker) Index() int64 { return w.idx - 1 }
 // make the same calls).
 func (w *Worker) Skip(n int64) { w.idx += n }
 
-// Eval counts one execution of real code.
-func (w *Worker) Eval() { w.evals++ }
+// Eval counts one execution of real code. It is also the worker's heartbeat:
+// the watchdog measures the time since the last completed execution, not
+// since the last enumerated case (one case may be a whole search subtree).
+func (w *Worker) Eval() {
+	w.evals++
+	if w.evals&63 == 0 {
+		w.beat()
+	}
+}
 
-func (w *Worker) EvalN(n int64) { w.evals += n }
+func (w *Worker) EvalN(n int64) { w.evals += n; w.beat() }
+
+func (w *Worker) beat() {
+	if w.progress == nil {
+		return
+	}
+	now := time.Now().UnixNano()
+	if now-w.lastBeat < int64(time.Second) {
+		return
+	}
+	w.lastBeat = now
+	binary.LittleEndian.PutUint64(w.pbuf[:8], uint64(w.idx-1))
+	binary.LittleEndian.PutUint64(w.pbuf[8:], uint64(now))
+	_, _ = w.progress.WriteAt(w.pbuf[:], 0)
+}
 
 // Outcome records a canonical outcome/state string for the distinct count.
 func (w *Worker) Outcome(s string) {
